@@ -3,7 +3,7 @@ use super::conv::*;
 use crate::engine::*;
 use crate::ops::Fam;
 use crate::world::*;
-use serde_json::Value;
+use serde_json::{json, Value};
 use std::collections::BTreeSet;
 use yrs::updates::decoder::Decode;
 use yrs::verif::{BlockKind, ParentDump};
@@ -44,6 +44,8 @@ pub fn bounds(tier: Tier) -> Vec<ConvBound> {
             mk(Fam::Txt, 0, &two, 3, 1, K_RELAY | K_V2 | K_MERGE),
             mk(Fam::Txt, 0, &two, 4, 0, 0),
             mk(Fam::Nest, 0, &two, 3, 1, K_RELAY),
+            // fresh keys inside nested types: the parent is the only dependency of such a write
+            mk(Fam::Nest, 1, &one, 3, 0, 0),
             mk(Fam::Map, 0, &two, 3, 1, K_RELAY),
             mk(Fam::Arr, 0, &two, 3, 1, K_RELAY),
         ],
@@ -229,10 +231,213 @@ fn run(ctx: &mut Ctx) {
     let b = bounds(ctx.tier);
     let mut mon = C02Monitor::default();
     run_conv(ctx, &b, &mut mon);
+    graphs(ctx);
 }
 
 fn replay(ctx: &mut Ctx, case: &Value) {
+    if case.get("graph").is_some() {
+        let g: Vec<(u64, Option<usize>)> = match serde_json::from_value(case["graph"].clone()) {
+            Ok(g) => g,
+            Err(e) => return ctx.machinery_error(format!("bad case: {}", e)),
+        };
+        let order: Vec<usize> = serde_json::from_value(case["order"].clone()).unwrap_or_default();
+        let bundle = case["bundle"].as_bool().unwrap_or(false);
+        let cj = || case.clone();
+        if let Some(Err((class, msg))) = ctx.exec(&cj, |_| graph_case(&g, &order, bundle)) {
+            ctx.violation("pending-exactness", &class, msg, cj());
+        }
+        return;
+    }
     let b = bounds(Tier::Quick);
     let mut mon = C02Monitor::default();
     replay_case(ctx, case, &mut mon, &b[0]);
+}
+
+// ---------------------------------------------------------------------------------------------
+// dependency graphs written by hand: N one-character blocks of three clients in the root text, each
+// anchored (left origin) to nothing or to ANY earlier block - waiting chains of every shape, which
+// histories of a few operations on two replicas cannot produce. Every block is its own update; all
+// delivery orders, and the bundle of all-but-one followed by the withheld one.
+
+/// right origins as a real editor would have recorded them: every block is typed right behind its left
+/// origin (or at the very start) by someone who sees all earlier blocks; its right origin is whatever
+/// stood there at that moment
+fn graph_rights(g: &[(u64, Option<usize>)]) -> Vec<Option<usize>> {
+    let mut seq: Vec<usize> = Vec::new();
+    let mut rights = Vec::new();
+    for (j, (_, origin)) in g.iter().enumerate() {
+        let pos = match origin {
+            Some(o) => seq.iter().position(|x| x == o).map(|p| p + 1).unwrap_or(0),
+            None => 0,
+        };
+        rights.push(seq.get(pos).copied());
+        seq.insert(pos, j);
+    }
+    rights
+}
+
+/// v1 update holding block `j` of the graph (ids: client, per-client clock)
+fn graph_update(g: &[(u64, Option<usize>)], j: usize) -> Vec<u8> {
+    let clock = |k: usize| g[..k].iter().filter(|b| b.0 == g[k].0).count() as u8;
+    let (client, origin) = g[j];
+    let right = graph_rights(g)[j];
+    let ch = b'a' + j as u8;
+    let mut u = vec![1, 1, client as u8, clock(j)];
+    let info = 4u8 | if origin.is_some() { 0x80 } else { 0 } | if right.is_some() { 0x40 } else { 0 };
+    u.push(info);
+    if let Some(o) = origin {
+        u.extend_from_slice(&[g[o].0 as u8, clock(o)]);
+    }
+    if let Some(r) = right {
+        u.extend_from_slice(&[g[r].0 as u8, clock(r)]);
+    }
+    if origin.is_none() && right.is_none() {
+        u.extend_from_slice(&[1, 1, b't']);
+    }
+    u.extend_from_slice(&[1, ch, 0]);
+    u
+}
+
+/// what a block waits for: its left and right origin (a gap in its own client's clocks is no reason to wait)
+fn graph_deps(g: &[(u64, Option<usize>)], j: usize) -> Vec<usize> {
+    let mut d: Vec<usize> = g[j].1.into_iter().collect();
+    d.extend(graph_rights(g)[j]);
+    d
+}
+
+fn graph_case(g: &[(u64, Option<usize>)], order: &[usize], bundle: bool) -> Result<(), (String, String)> {
+    let n = g.len();
+    let reference = {
+        let r = Replica::new(RCfg { client: 90, gc: true, utf16: false, cleanup: false });
+        for j in 0..n {
+            r.apply(&graph_update(g, j), false).map_err(|e| ("harness".to_string(), format!("creation order not appliable: {}", e)))?;
+        }
+        if r.pending() {
+            return Err(("harness".to_string(), "creation order leaves something pending".into()));
+        }
+        r.dump()
+    };
+    let rep = Replica::new(RCfg { client: 91, gc: true, utf16: false, cleanup: false });
+    let mut delivered: Vec<bool> = vec![false; n];
+    let closed = |d: &Vec<bool>| (0..n).all(|j| !d[j] || graph_deps(g, j).iter().all(|&p| d[p]));
+    if bundle {
+        // everything but the first of `order` in one merged update, then the withheld one
+        let rest: Vec<Vec<u8>> = order[1..].iter().map(|&j| graph_update(g, j)).collect();
+        let merged = yrs::merge_updates_v1(rest.iter().map(|v| v.as_slice())).map_err(|e| ("merge-fails".to_string(), e.to_string()))?;
+        rep.apply(&merged, false).map_err(|e| ("apply-fails".to_string(), e))?;
+        for &j in &order[1..] {
+            delivered[j] = true;
+        }
+        if rep.pending() == closed(&delivered) {
+            return Err(("pending-flag-wrong".to_string(), format!("after the bundle of {:?}: has_missing_updates()={} but the delivered set is {}closed", &order[1..], rep.pending(), if closed(&delivered) { "" } else { "not " })));
+        }
+        rep.apply(&graph_update(g, order[0]), false).map_err(|e| ("apply-fails".to_string(), e))?;
+        delivered[order[0]] = true;
+    } else {
+        for &j in order {
+            rep.apply(&graph_update(g, j), false).map_err(|e| ("apply-fails".to_string(), e))?;
+            delivered[j] = true;
+            if rep.pending() == closed(&delivered) {
+                return Err(("pending-flag-wrong".to_string(), format!("after delivering {:?} of order {:?}: has_missing_updates()={} but the delivered set is {}closed", j, order, rep.pending(), if closed(&delivered) { "" } else { "not " })));
+            }
+        }
+    }
+    if rep.pending() {
+        return Err(("stuck-pending".to_string(), "everything delivered, still reports missing updates".into()));
+    }
+    if rep.dump() != reference {
+        return Err(("content-differs".to_string(), format!("{} vs creation order {}", super::conv::show_model(&rep.dump()), super::conv::show_model(&reference))));
+    }
+    Ok(())
+}
+
+fn perms(n: usize) -> Vec<Vec<usize>> {
+    fn rec(cur: &mut Vec<usize>, used: &mut Vec<bool>, out: &mut Vec<Vec<usize>>) {
+        if cur.len() == used.len() {
+            out.push(cur.clone());
+            return;
+        }
+        for i in 0..used.len() {
+            if !used[i] {
+                used[i] = true;
+                cur.push(i);
+                rec(cur, used, out);
+                cur.pop();
+                used[i] = false;
+            }
+        }
+    }
+    let mut out = Vec::new();
+    rec(&mut Vec::new(), &mut vec![false; n], &mut out);
+    out
+}
+
+fn graphs(ctx: &mut Ctx) {
+    let n = 5usize;
+    let orders = perms(n);
+    // creation sequences: which client writes the j-th block (ids 1..3, at most 3 blocks each)
+    let mut idx = 0u64;
+    let mut seqs: Vec<Vec<u64>> = vec![vec![]];
+    for _ in 0..n {
+        seqs = seqs.into_iter().flat_map(|p| (1..=3u64).map(move |c| { let mut q = p.clone(); q.push(c); q })).collect();
+    }
+    for seq in seqs {
+        if (1..=3u64).any(|c| seq.iter().filter(|&&x| x == c).count() > 3) {
+            continue;
+        }
+        // origins: none or any earlier block
+        let mut graphs: Vec<Vec<(u64, Option<usize>)>> = vec![vec![]];
+        for j in 0..n {
+            graphs = graphs
+                .into_iter()
+                .flat_map(|p| {
+                    let c = seq[j];
+                    (0..=j).map(move |o| {
+                        let mut q = p.clone();
+                        q.push((c, if o == 0 { None } else { Some(o - 1) }));
+                        q
+                    })
+                })
+                .collect();
+        }
+        for g in graphs {
+            idx += 1;
+            if !ctx.mine(idx) {
+                continue;
+            }
+            if ctx.out_of_time() {
+                return;
+            }
+            ctx.count("dependency_graphs", 1);
+            // the quick tier walks every third graph's bundles, the thorough tier all of them
+            let bundles = ctx.tier == Tier::Thorough || idx % 3 == 0;
+            let case0 = json!({"graph": g});
+            let res = ctx.exec(&|| case0.clone(), |ctx| {
+                let mut bad: Option<(String, String, Vec<usize>, bool)> = None;
+                for order in &orders {
+                    ctx.count("transitions", n as u64);
+                    if let Err((c, m)) = graph_case(&g, order, false) {
+                        bad = Some((c, m, order.clone(), false));
+                        break;
+                    }
+                    if bundles {
+                        if let Err((c, m)) = graph_case(&g, order, true) {
+                            bad = Some((c, m, order.clone(), true));
+                            break;
+                        }
+                    }
+                }
+                bad
+            });
+            ctx.state(hash_of(&("graph", &g)));
+            if let Some(Some((class, msg, order, bundle))) = res {
+                let case = json!({"graph": g, "order": order, "bundle": bundle});
+                if class == "harness" {
+                    ctx.machinery_error(format!("{} on {}", msg, case));
+                } else {
+                    ctx.violation("pending-exactness", &format!("graph:{}", class), format!("blocks {:?} (client, left origin = index of an earlier block): {}", g, msg), case);
+                }
+            }
+        }
+    }
 }
